@@ -448,6 +448,15 @@ def run_stmt(tag, stmt, cols, acc):
 
 # ---- ledger tables ------------------------------------------------------------------------------
 
+QUALIFIED_FROMS = [
+    ('open', A.From(None, datetime.date(2020, 1, 8), None, None)),
+    ('close', A.From(None, None, datetime.date(2020, 2, 1), None)),
+    ('close-undated', A.From(None, None, True, None)),
+    ('clear', A.From(None, None, None, True)),
+    ('open-close-clear', A.From(None, datetime.date(2020, 1, 3), datetime.date(2020, 3, 1), True)),
+]
+
+
 def ledger_sweep(shard, nshards, n):
     from .. import ledgers
     acc = Acc()
@@ -460,6 +469,13 @@ def ledger_sweep(shard, nshards, n):
             table = conn.tables[tname_]
             stmts = [('*', select(A.Asterisk(), from_=A.Table(tname_)))]
             stmts.append(('all', select([(col(c), None) for c in table.columns], from_=A.Table(tname_))))
+            if tname_ == 'postings':
+                # rows synthesised by the FROM qualifiers (summarisation / transfer / conversion entries: their
+                # postings carry no metadata) must honour the announced column types too
+                allcols = [(col(c), None) for c in table.columns]
+                for qtag, frm in QUALIFIED_FROMS:
+                    stmts.append((f'*:{qtag}', select(A.Asterisk(), from_=frm)))
+                    stmts.append((f'all:{qtag}', select(allcols, from_=frm)))
             for tag, stmt in stmts:
                 acc.count('programs')
                 try:
@@ -467,7 +483,7 @@ def ledger_sweep(shard, nshards, n):
                     got = cur.fetchall()
                 except Exception as e:
                     acc.violation(f'type-error:{tb_fingerprint(e)}', f'SELECT {tag} FROM #{tname_} on ledger {list(names)!r} raised {type(e).__name__}: {e}',
-                                  {'kind': 'ledger', 'names': list(names), 'table': tname_})
+                                  {'kind': 'ledger', 'names': list(names), 'table': tname_, 'tag': tag})
                     continue
                 acc.count('accepted')
                 bad = False
@@ -476,12 +492,12 @@ def ledger_sweep(shard, nshards, n):
                         acc.count('cells')
                         if not kind_ok(v, d.datatype):
                             acc.violation(f'announced:#{tname_}.{d.name}', f'#{tname_}.{d.name} announces {tname(d.datatype)} but yields {v!r} ({type(v).__name__}) on ledger {list(names)!r}',
-                                          {'kind': 'ledger', 'names': list(names), 'table': tname_})
+                                          {'kind': 'ledger', 'names': list(names), 'table': tname_, 'tag': tag})
                             bad = True
                             break
                     if bad:
                         break
-                if not bad and tag == 'all':
+                if not bad and tag.startswith('all'):
                     desc = cur.description
                     try:
                         dctx = conn.options['dcontext']
@@ -491,7 +507,7 @@ def ledger_sweep(shard, nshards, n):
                         acc.count('renders', 3)
                     except Exception as e:
                         acc.violation(f'render:#{tname_}:{crash_fingerprint(e)}', f'rendering SELECT <all columns> FROM #{tname_} on ledger {list(names)!r} failed: {type(e).__name__}: {e}',
-                                      {'kind': 'ledger', 'names': list(names), 'table': tname_})
+                                      {'kind': 'ledger', 'names': list(names), 'table': tname_, 'tag': tag})
     return acc
 
 
@@ -552,8 +568,17 @@ def ledger_replay(c):
         if list(names) == c['names']:
             conn = ledgers.connect(text)
             table = conn.tables[c['table']]
-            cur = conn.execute(select([(col(x), None) for x in table.columns], from_=A.Table(c['table'])))
-            for row in cur.fetchall():
+            frm = A.Table(c['table'])
+            qtag = c.get('tag', 'all').partition(':')[2]
+            if qtag:
+                frm = dict(QUALIFIED_FROMS)[qtag]
+            try:
+                cur = conn.execute(select([(col(x), None) for x in table.columns], from_=frm))
+                rows = cur.fetchall()
+            except Exception as e:
+                acc.violation(f'type-error:{tb_fingerprint(e)}', f'{type(e).__name__}: {e}', c)
+                return acc.violations
+            for row in rows:
                 for v, d in zip(row, cur.description):
                     if not kind_ok(v, d.datatype):
                         acc.violation(f'announced:#{c["table"]}.{d.name}', f'{d.name} announces {tname(d.datatype)} but yields {v!r}', c)
